@@ -14,11 +14,21 @@ pub(crate) fn process_email_autolinks<'a>(
     sourcepos: &mut Sourcepos,
     spx: &mut Spx,
 ) {
-    let contents = contents_str.as_bytes();
-    let len = contents.len();
-    let mut i = 0;
+    // The text is scanned piece by piece: `base` is where the current piece
+    // starts in `full`. The first piece stays in `node`; every match is
+    // followed by a new Text node holding the next piece. Neither the call
+    // stack nor the amount of copying grows with the number of matches.
+    let full = std::mem::take(contents_str);
+    let bytes = full.as_bytes();
+    let mut base = 0;
+    let mut first_len = None;
+    let mut prev = node;
+    let mut cur_sp = *sourcepos;
 
-    while i < len {
+    loop {
+        let contents = &bytes[base..];
+        let len = contents.len();
+        let mut i = 0;
         let mut post_org = None;
         let mut bracket_opening = 0;
 
@@ -52,68 +62,70 @@ pub(crate) fn process_email_autolinks<'a>(
             i += 1;
         }
 
-        if let Some((post, reverse, skip)) = post_org {
-            i -= reverse;
-            node.insert_after(post);
+        let first = first_len.is_none() && base == 0;
 
-            let remain = if i + skip < len {
-                let remain = str::from_utf8(&contents[i + skip..]).unwrap();
+        let Some((post, reverse, skip)) = post_org else {
+            // No (further) match: the rest is the current piece.
+            if !first {
                 #[cfg(comrak_verif)]
-                crate::verif::add(8, remain.len());
-                assert!(!remain.is_empty());
-                Some(remain.to_string())
-            } else {
-                None
-            };
-            let initial_end_col = sourcepos.end.column;
-
-            sourcepos.end.column = spx.consume(i);
-
-            let nsp_end_col = spx.consume(skip);
-
-            contents_str.truncate(i);
-
-            let nsp: Sourcepos = (
-                sourcepos.end.line,
-                sourcepos.end.column + 1,
-                sourcepos.end.line,
-                nsp_end_col,
-            )
-                .into();
-            post.data.borrow_mut().sourcepos = nsp;
-            // Inner text gets same sourcepos as link, since there's nothing but
-            // the text.
-            post.first_child().unwrap().data.borrow_mut().sourcepos = nsp;
-
-            if let Some(remain) = remain {
-                let mut asp: Sourcepos = (
-                    sourcepos.end.line,
-                    nsp.end.column + 1,
-                    sourcepos.end.line,
-                    initial_end_col,
-                )
-                    .into();
-                let after = make_inline(arena, NodeValue::Text(remain.to_string()), asp);
-                post.insert_after(after);
-
-                let after_ast = &mut after.data.borrow_mut();
-                process_email_autolinks(
-                    arena,
-                    after,
-                    match after_ast.value {
-                        NodeValue::Text(ref mut t) => t,
-                        _ => unreachable!(),
-                    },
-                    relaxed_autolinks,
-                    &mut asp,
-                    spx,
-                );
-                after_ast.sourcepos = asp;
+                crate::verif::add(8, len);
+                let text = str::from_utf8(contents).unwrap().to_string();
+                prev.insert_after(make_inline(arena, NodeValue::Text(text), cur_sp));
             }
+            break;
+        };
 
-            return;
+        i -= reverse;
+
+        let initial_end_col = cur_sp.end.column;
+        cur_sp.end.column = spx.consume(i);
+        let nsp_end_col = spx.consume(skip);
+
+        if first {
+            first_len = Some(i);
+            *sourcepos = cur_sp;
+        } else {
+            #[cfg(comrak_verif)]
+            crate::verif::add(8, i);
+            let text = str::from_utf8(&contents[..i]).unwrap().to_string();
+            let piece = make_inline(arena, NodeValue::Text(text), cur_sp);
+            prev.insert_after(piece);
+            prev = piece;
         }
+
+        let nsp: Sourcepos = (
+            cur_sp.end.line,
+            cur_sp.end.column + 1,
+            cur_sp.end.line,
+            nsp_end_col,
+        )
+            .into();
+        post.data.borrow_mut().sourcepos = nsp;
+        // Inner text gets same sourcepos as link, since there's nothing but
+        // the text.
+        post.first_child().unwrap().data.borrow_mut().sourcepos = nsp;
+        prev.insert_after(post);
+        prev = post;
+
+        if i + skip >= len {
+            break;
+        }
+
+        cur_sp = (
+            cur_sp.end.line,
+            nsp.end.column + 1,
+            cur_sp.end.line,
+            initial_end_col,
+        )
+            .into();
+        base += i + skip;
     }
+
+    let mut full = full;
+    if let Some(n) = first_len {
+        full.truncate(n);
+    }
+    *contents_str = full;
 }
 fn email_match<'a>(
     arena: &'a Arena<AstNode<'a>>,
